@@ -173,6 +173,18 @@ Record cfg := mkCfg {
 Definition add_static (doc : list triple) (c : cfg) : cfg :=
   mkCfg (blocks c) (static_pats c) (add_all doc (static_store c)) (pol c) (sop_of c).
 
+(* RSPBuilder::create_rsp_window: the plan of a declared window is the WINDOW block with the SAME NAME
+   (`window_blocks.iter().find(|block| block.window_name == window_clause.window_iri)`), wherever that block
+   stands in the WHERE clause; a declared window without a block gets the plan `?s ?p ?o`.
+   decls = the window names in declaration order, named = the WINDOW blocks in textual order. *)
+Fixpoint find_block (name : N) (named : list (N * list pat)) : option (list pat) :=
+  match named with
+  | [] => None
+  | (n, b) :: named' => if n =? name then Some b else find_block name named'
+  end.
+Definition pair_blocks (spo : list pat) (decls : list N) (named : list (N * list pat)) : list (list pat) :=
+  map (fun d => match find_block d named with Some b => b | None => spo end) decls.
+
 Definition nwin (c : cfg) : N := N.of_nat (length (blocks c)).
 Definition block (c : cfg) (i : N) : list pat := nth (N.to_nat i) (blocks c) [].
 
